@@ -42,7 +42,7 @@ def TyOk : Ty → Bool
   | .tup es => TyOkList es
   | .var alts => decide (alts.length ≤ 255) && TyOkAlts alts
   | .null => false
-  | .enum u name ens => (arithSize u).isSome && NameOk name && EnumsOk ens
+  | .enum u name ens => (arithSize u).isSome && NameOk name && EnumsOk ens && (u != 121)   -- documented grammar: the underlying type is an integer, not bool
   | .struct name fs => NameOk name && TyOkFields fs
 def TyOkList : List Ty → Bool
   | [] => true
